@@ -326,6 +326,12 @@ func checkC12(c *Ctx, r *Report) {
 		for _, vr := range virtualReturns(tc, 0) {
 			form, in := "", ""
 			for _, cf := range vr.Facts {
+				// `mode == "tool"` holding, or `mode != "tool"` not holding
+				if bo, ok := cf.Cond.(*ssa.BinOp); ok && !cf.True && assertsEq(bo, cf.True) {
+					if s, ok := constString(bo.Y); ok {
+						in = s
+					}
+				}
 				if !cf.True {
 					continue
 				}
@@ -382,6 +388,16 @@ func checkC12(c *Ctx, r *Report) {
 							got[form][k] = v
 						} else {
 							got[form][k] = def
+						}
+					}
+				} else if sc := call.Call.StaticCallee(); sc != nil && sc.Blocks != nil && c.inRepo(sc) && len(sc.Params) == 1 && sc.Params[0].Type().String() == "string" {
+					// … or in a switch function of the mode (`mapSimpleToolChoice(mode)`): evaluated per mode
+					for k := range want {
+						if _, done := got[form][k]; done {
+							continue
+						}
+						if v, okS := constString(evalOnConstString(sc, k)); okS {
+							got[form][k] = v
 						}
 					}
 				}
